@@ -687,10 +687,8 @@ func init() {
 		}
 		// quick: all sequences <= 3 from the empty database and <= 3 from each non-initial start state;
 		// thorough: <= 5 and <= 4
+		// thorough: the same, plus depth 4 over the first 40 calls of the alphabet from the same three start states
 		depth, seedDepth := 3, 3
-		if !c.Quick() {
-			depth, seedDepth = 5, 4
-		}
 		var compared, stateChecks int64
 		var mu sync.Mutex
 		cfg := e1.Config{
@@ -783,6 +781,60 @@ func init() {
 			st.ReplayCalls += ss.ReplayCalls
 		}
 		st.Exhaustive = st.Exhaustive && seedExh
+		// thorough: one level deeper over the writing calls of the alphabet (reads do not change the state; they are
+		// compared at every level above), from the empty database and from the same start states
+		if !c.Quick() && len(c.ReplayCalls()) == 0 {
+			var core []e1.Call
+			var coreMap []int
+			for k, a := range alpha {
+				kind := callKind(a.Name)
+				switch kind {
+				case "Find", "FindOne", "CountDocuments", "EstimatedDocumentCount", "Distinct", "ListCollectionNames", "ListDatabaseNames", "List":
+					continue
+				}
+				if strings.HasPrefix(a.Name, "ListDatabaseNames") || strings.Contains(a.Name, ".Indexes().List") {
+					continue
+				}
+				core = append(core, a)
+				coreMap = append(coreMap, k)
+			}
+			translate := func(path []int) []int {
+				out := make([]int, len(path))
+				for i, p := range path {
+					out[i] = coreMap[p]
+				}
+				return out
+			}
+			var deepStates, deepTrans int64
+			starts := append([][]int{nil}, seeds...)
+			for _, seed := range starts {
+				seed := seed
+				dc := cfg
+				dc.Alphabet = core
+				dc.Depth = 4
+				dc.New = func() *world.World {
+					w := cfg.New()
+					for _, k := range seed {
+						alpha[k].Do(w)
+					}
+					return w
+				}
+				inner := cfg.After
+				dc.After = func(w *world.World, path []int, pre interface{}, obs string) {
+					inner(w, append(append([]int{}, seed...), translate(path)...), pre, obs)
+				}
+				ds := e1.BFS(dc)
+				deepStates += ds.States
+				deepTrans += ds.Transitions
+				st.Exhaustive = st.Exhaustive && ds.Exhaustive
+				st.ReplayCalls += ds.ReplayCalls
+			}
+			seededStates += deepStates
+			seededTrans += deepTrans
+			r.Set("depth_4_writing_calls", int64(len(core)))
+			r.Set("depth_4_states", deepStates)
+			r.Set("depth_4_transitions", deepTrans)
+		}
 		r.Set("seeded_start_states", int64(len(seeds)))
 		r.Set("seeded_states", seededStates)
 		r.Set("seeded_transitions", seededTrans)
